@@ -93,7 +93,12 @@ def render(toks):
                 out.append(ind + s + ';')
             else:
                 _, _, sc, inl, a, body = p
-                s = (FSC[sc] + (' inline' if inl == '1' else '') + ' int v%d(void)' % i).strip()
+                # _Noreturn is a function specifier like inline (6.7.4) and has no bearing on linkage or on what is an
+                # inline definition: the spelling varies deterministically with the position
+                var = (i * 7 + len(out)) % 8
+                fspec = ((' inline', ' inline', ' inline', ' inline', ' inline _Noreturn', ' _Noreturn inline', ' inline', ' inline inline')[var] if inl == '1'
+                         else (' _Noreturn' if var == 5 else ''))
+                s = (FSC[sc] + fspec + ' int v%d(void)' % i).strip()
                 if a != '-':
                     s += ' __asm__("lab%s")' % a
                 out.append(ind + s + (' { return 0; }' if body == '1' else ';'))
